@@ -641,6 +641,7 @@ static RETCODE adfFileSeekExt_ ( struct AdfFile * const file,
         adfEnv.eFct ( "adfFileSeekExt: error reading data block %d, file '%s'",
                       file->curDataPtr, file->fileHdr->fileName );
         file->curDataPtr = 0;  // invalidate data ptr
+        return rc;
     }
 
     file->nDataBlock++;
@@ -892,7 +893,8 @@ uint32_t adfFileRead ( struct AdfFile * const file,
     if ( ( ! file->modeRead ) ||
          n == 0 ||
          file->fileHdr->byteSize == 0 ||
-         adfEndOfFile ( file ) )
+         adfEndOfFile ( file ) ||
+         file->curDataPtr == 0 )     /* no valid block is buffered (an earlier transfer failed): seek first */
     {
         return 0;
     }
@@ -1014,9 +1016,11 @@ RETCODE adfFileReadNextBlock ( struct AdfFile * const file )
     }
 
     rc = adfReadDataBlock ( file->volume, nSect, file->currentData );
-    if ( rc != RC_OK )
+    if ( rc != RC_OK ) {
         adfEnv.eFct ( "adfReadNextFileBlock : error reading data block %d / %d, file '%s'",
                        file->nDataBlock, nSect, file->fileHdr->fileName );
+        return rc;     /* the position in the block lists is not advanced */
+    }
 
     if (isOFS(file->volume->dosType) && data->seqNum!=file->nDataBlock+1)
         (*adfEnv.wFct)("adfReadNextFileBlock : seqnum incorrect");
